@@ -354,7 +354,7 @@ PROPS = {
         "level": "exploration",
         "jobs": c05_jobs,
         "rule": "port level (Notifier/Listener over local and ipc services, ids 0-2, 1-3 notifier threads): short rounds in which every notifier fires a burst and parks while the listener mixes try_wait / timed_wait; after every round (all notifiers parked between calls) a quiescent probe runs whenever something is undelivered: timed_wait(1 s) must deliver and must not have slept >= 0.9 s. Every execution runs with the hook off, under each sampled depth-1 stall plan (stall before/after every hooked atomic operation of listener and notifiers, m in {1,2,4,10,all}), sampled depth-2 plans and random delays (debug, release, TSan). Log rules: no phantom id, deliveries <= started notifications on every prefix, every successful notification followed by a delivery of its id, quiescent wake-up probe. Non-trivial = an execution in which events were delivered or a probe ran; distinct = distinct (config, interleaving signature, delivered sequence). Lock-free core (w_lockfree c05): BitSet and CountingBitSet with capacities 1-130, 1-3 setter threads and a drainer (reset_all / reset_next) under the same sweep, TSan and Miri (data-race detector on: the sets use atomics only): no phantom id, a completed set is reported by a later drain or the final quiescent drain, never more occurrences than set calls begun, counting set: reported counts add up exactly to the set calls, plain set: number of set calls that returned true == number of reports.",
-        "assumptions": COMMON_ASSUMPTIONS + ["unbounded 'eventually' is restated as the quiescent probe: no notify in flight, undelivered id exists, wait must not sleep; the 0.9 s threshold is 5-6 orders of magnitude above the expected latency and a firing watchdog alone is never a verdict without the pending-id witness", "event implementations reached: process-local and unix-datagram/socket based ones selected by local/ipc services"],
+        "assumptions": COMMON_ASSUMPTIONS + ["unbounded 'eventually' is restated as the quiescent probe: no notify in flight, undelivered id exists, wait must not sleep; the 0.9 s threshold is 5-6 orders of magnitude above the expected latency and a firing watchdog alone is never a verdict without the pending-id witness; a probe during which the listener thread spent >= 200 ms runnable-but-not-running (/proc/thread-self/schedstat) is inconclusive", "event implementations reached: process-local and unix-datagram/socket based ones selected by local/ipc services"],
         "floor": (150, 50),
     },
     "C13": {
